@@ -118,6 +118,8 @@ type serverConn struct {
 
 	closer chan struct{}
 
+	// vs carries the verification hooks; empty without the verif build tag.
+	vs     verifServer
 	debug  bool
 	logger fasthttp.Logger
 }
@@ -135,6 +137,8 @@ func (sc *serverConn) Handshake() error {
 }
 
 func (sc *serverConn) Serve() error {
+	sc.vs.register(sc)
+	defer sc.vs.ev(verifEvServeReturn)
 	sc.closer = make(chan struct{}, 1)
 	sc.writeStop = make(chan struct{})
 	sc.handlerDone = make(chan *Stream, 128)
@@ -182,6 +186,7 @@ func (sc *serverConn) Serve() error {
 		}()
 
 		sc.writeLoop()
+		sc.vs.ev(verifEvWriteLoopExit)
 	}()
 
 	go func() {
@@ -291,6 +296,8 @@ func (sc *serverConn) checkFrameWithStream(fr *FrameHeader) error {
 }
 
 func (sc *serverConn) readLoop() (err error) {
+	defer sc.vs.ev(verifEvReadLoopExit)
+
 	defer func() {
 		if err := recover(); err != nil {
 			sc.logger.Printf("readLoop panicked: %s\n%s\n", err, debug.Stack())
@@ -306,6 +313,7 @@ func (sc *serverConn) readLoop() (err error) {
 	var expectContinuation uint32
 
 	for err == nil {
+		sc.vs.ev(verifEvReadIter)
 		fr, err = ReadFrameFromWithSize(sc.br, sc.clientS.frameSize)
 		if err != nil {
 			if errors.Is(err, ErrUnknownFrameType) {
@@ -363,6 +371,7 @@ func (sc *serverConn) readLoop() (err error) {
 				return errConnClosed
 			}
 
+			sc.vs.ev(verifEvForwarded)
 			sc.reader <- fr
 			continue
 		}
@@ -375,6 +384,7 @@ func (sc *serverConn) readLoop() (err error) {
 				sc.handleSettings(st)
 				// forward to handleStreams so the INITIAL_WINDOW_SIZE delta is
 				// applied to open streams in frame order.
+				sc.vs.ev(verifEvForwarded)
 				sc.reader <- fr
 				continue
 			}
@@ -387,6 +397,7 @@ func (sc *serverConn) readLoop() (err error) {
 			}
 
 			// the actual window bookkeeping happens in handleStreams.
+			sc.vs.ev(verifEvForwarded)
 			sc.reader <- fr
 			continue
 		case FramePing:
@@ -416,6 +427,8 @@ func (sc *serverConn) readLoop() (err error) {
 // handleStreams handles everything related to the streams
 // and the HPACK table is accessed synchronously.
 func (sc *serverConn) handleStreams() {
+	defer sc.vs.ev(verifEvStreamLoopExit)
+
 	defer func() {
 		if err := recover(); err != nil {
 			sc.logger.Printf("handleStreams panicked: %s\n%s\n", err, debug.Stack())
@@ -472,10 +485,12 @@ func (sc *serverConn) handleStreams() {
 			// nobody will send. Whatever is behind it stays open otherwise.
 			_ = strm.ctx.Response.CloseBodyStream()
 
+			verifPool(verifPoolReqCtx, false, strm.ctx)
 			ctxPool.Put(strm.ctx)
 			strm.ctx = nil
 		}
 
+		verifPool(verifPoolStream, false, strm)
 		streamPool.Put(strm)
 	}
 
@@ -555,11 +570,14 @@ func (sc *serverConn) handleStreams() {
 loop:
 	for {
 		releaseHandled()
+		sc.vs.idle(strms, openStreams, len(closedRing), len(closedStrms), len(sc.writer), len(sc.reader))
 
 		select {
 		case <-sc.closer:
 			break loop
 		case strm := <-sc.handlerDone:
+			sc.vs.busy()
+			sc.vs.ev(verifEvHandlerTaken)
 			strm.handlerRunning = false
 
 			if strm.abandoned {
@@ -582,6 +600,7 @@ loop:
 				break loop
 			}
 		case <-sc.maxRequestTimer.C:
+			sc.vs.busy()
 			reqTimerArmed = false
 
 			// No read timeout configured means requests do not time out.
@@ -632,6 +651,8 @@ loop:
 				}
 			}
 		case fr, ok := <-sc.reader:
+			sc.vs.busy()
+			sc.vs.ev(verifEvTaken)
 			if !ok {
 				return
 			}
@@ -1030,6 +1051,7 @@ var ctxPool = sync.Pool{
 
 func (sc *serverConn) createStream(c net.Conn, frameType FrameType, strm *Stream) {
 	ctx := ctxPool.Get().(*fasthttp.RequestCtx)
+	verifPool(verifPoolReqCtx, true, ctx)
 	ctx.Request.Reset()
 	ctx.Response.Reset()
 
@@ -1321,6 +1343,7 @@ func (sc *serverConn) dispatchHandler(strm *Stream) {
 	ctx.Request.Header.SetProtocolBytes(StringHTTP2)
 
 	strm.handlerRunning = true
+	sc.vs.ev(verifEvHandlerStart)
 
 	go func() {
 		defer func() {
@@ -1334,6 +1357,7 @@ func (sc *serverConn) dispatchHandler(strm *Stream) {
 				ctx.Response.SetStatusCode(fasthttp.StatusInternalServerError)
 			}
 
+			sc.vs.ev(verifEvHandlerReport)
 			select {
 			case sc.handlerDone <- strm:
 			case <-sc.handlerStop:
@@ -1543,9 +1567,11 @@ func (sc *serverConn) sendPingAndSchedule() {
 // once the connection is on its way out: the ping and idle timers queue frames
 // from their own goroutines and cannot know the write loop has gone.
 func (sc *serverConn) write(fr *FrameHeader) {
+	sc.vs.ev(verifEvQueued)
 	select {
 	case sc.writer <- fr:
 	case <-sc.writeStop:
+		sc.vs.ev(verifEvDropped)
 		ReleaseFrameHeader(fr)
 	}
 }
@@ -1562,6 +1588,7 @@ func (sc *serverConn) writeLoop() {
 			buffered++
 		}
 
+		sc.vs.ev(verifEvWritten)
 		ReleaseFrameHeader(fr)
 
 		if err != nil {
